@@ -25,7 +25,8 @@ RULE = ("cases = (database state reached by a random history of 0-9 completed co
         "untag with or without version / undeclare with or without version / forced declare with a table stream (interned table file, 2 contents), over 2 products x 2 versions x 2 unrelated flavors x 2 tags; "
         "every crash point k of that command, INCLUDING every effect of every save of the product cache (utils.AtomicFile: "
         "temporary file, buffered write, fsync, close, rename, per flavor); after each kill a fresh reader that finds the "
-        "leftover cache, then one that rebuilds it).  Non-trivial: the command has at least one effect; distinct = "
+        "leftover cache, then one that rebuilds it); plus a family of SIGNAL kills (SIGTERM, SIGINT before every fourth effect of a "
+        "declare with a table stream, locking on, later reader with locking on).  Non-trivial: the command has at least one effect; distinct = "
         "distinct (state, command) digests; evaluations counts crash points")
 TRUSTED = ["a kill is injected between two Python-level effects (audit events open/rename/remove/mkdir/rmdir and the "
            "wrapped write/close of the record writers); every print of a writer is flushed to disk as one chunk",
@@ -38,7 +39,10 @@ TRUSTED = ["a kill is injected between two Python-level effects (audit events op
            "the copy of an interned table file (shutil.copy2 inside utils.copyfile) is one effect: no kill is injected between "
            "its open and the end of the data (the model has the empty intermediate state; the witness for the pinned "
            "copyfile is the state after its unlink)"]
-ASSUMPTIONS = ["one writable stack, no user tags, the two flavors are unrelated (neither is a fallback of the other)",
+ASSUMPTIONS = ["signal kills: the command runs inside a copy of cmd.py's lock bracket (lock.takeLocks exclusive / finally giveLocks), "
+               "locking on; the signal is sent by the process to itself immediately before an effect; implementation-side oracle "
+               "only (lock files left, a later reader with its shared lock) - the Lean model has no signals or locks (C09 has the locks)",
+               "one writable stack, no user tags, the two flavors are unrelated (neither is a fallback of the other)",
                "the user's cache directory is removed before every traced command, whose Eups object then builds it anew "
                "(20 ms before the command starts); which flavors' cache files that object holds is read from it and given "
                "to the model as part of the initial state; after a kill the first reader finds the cache as it was left, "
@@ -202,6 +206,147 @@ def cache_snapshot(stack, userdata):
                 out[f] = "complete"
             except Exception:  # noqa
                 out[f] = "garbled"
+    return out
+
+
+# ---- killed by a signal, with locking on --------------------------------------------------------------------
+
+def _child_signal(stack, userdata, cmd, k, signum):
+    """The command inside the bracket of cmd.py (lock.takeLocks(..., LOCK_EX) / try: run / finally: giveLocks), locking
+    ON; immediately before its effect number k the process sends itself `signum` (SIGTERM / SIGINT) - whatever handler
+    is installed at that moment runs (takeLocks' own, or the one `declare` with a table stream puts in its place)."""
+    import signal as _signal
+    lib_records.silence()
+    os.chdir(os.path.dirname(stack))
+    shutil.rmtree(os.path.join(userdata, "_caches_"), ignore_errors=True)
+    lib_records.patch_stamps()
+    lock = common.eups_mod("lock")
+    tr = lib_fstrace.Tracer(os.path.join(stack, "ups_db"), None, also=[os.path.join(userdata, "_caches_")])
+    e = common.new_eups(flavor=FLAVORS[cmd["f"]], force=bool(cmd.get("force")) or cmd["op"] == "declaretab")
+    state = {"n": 0, "sent": False}
+
+    def effect(kind, *paths):
+        if not tr.active:
+            return
+        if state["n"] == k and not state["sent"]:
+            state["sent"] = True
+            os.kill(os.getpid(), signum)
+        state["n"] += 1
+    tr.effect = effect
+    locks = lock.takeLocks("declare", [stack], lock.LOCK_EX)
+    tr.install()
+    tr.wrap_copy2(common.eups_mod("utils"))
+    tr.wrap_atomicfile(common.eups_mod("utils"))
+    err = None
+    try:
+        try:
+            _exec(e, stack, cmd)
+        finally:
+            lock.giveLocks(locks)
+    except BaseException as ex:  # noqa
+        err = type(ex).__name__
+    tr.active = False
+    return {"err": err, "n": state["n"], "sent": state["sent"]}
+
+
+def _child_read_locked(stack, userdata):
+    """A later read-only command with locking on: the shared lock of cmd.py's bracket, then `eups list`."""
+    lib_records.silence()
+    os.chdir(os.path.dirname(stack))
+    lock = common.eups_mod("lock")
+    try:
+        locks = lock.takeLocks("list", [stack], lock.LOCK_SH, ntry=1)
+    except BaseException as ex:  # noqa
+        return "EXC:takeLocks:" + type(ex).__name__
+    try:
+        e = common.new_eups(flavor=FLAVORS[0])
+        return sorted([p.name, p.version] for p in e.findProducts())
+    except Exception as ex:  # noqa
+        return "EXC:" + lib_records.exc_name(ex)
+    finally:
+        lock.giveLocks(locks)
+
+
+def _lock_files(stack):
+    out = []
+    for d, dirs, files in os.walk(stack):
+        if os.path.basename(d).startswith(".lock") or "lock" in os.path.basename(d).lower():
+            out += [os.path.relpath(os.path.join(d, f), stack) for f in files if f.startswith(("exclusive", "shared"))]
+    return sorted(out)
+
+
+def run_signal_case(case):
+    """case = {"history", "cmd", "points"}: the command is sent SIGTERM and SIGINT at sampled effects; after each the
+    lock files left in the stack and a later read-only command WITH locking are observed."""
+    import signal as _signal
+    R = common.scratch("c08s")
+    try:
+        stacks, uds = common.mkstacks(R)
+        S, ud = stacks[0], uds["A"]
+        for p in PRODUCTS:
+            for v in VERSIONS:
+                for f in FLAVORS:
+                    common.mkprod(S, p, v, flavor=f)
+        db = os.path.join(S, "ups_db")
+        for h in case["history"]:
+            common.in_child(_child_cmd, S, ud, h, None, False)
+        saved = os.path.join(R, "saved_db")
+        shutil.copytree(db, saved)
+        full = common.in_child(_child_signal, S, ud, case["cmd"], -1, _signal.SIGTERM)
+        if full[0] != "ok":
+            return {"bad": "untouched run: %s" % (full[:3],)}
+        n = full[1]["n"]
+        out = {"n": n, "runs": [], "locks_after_plain_run": _lock_files(S)}
+        ks = [k for k in range(n) if k % case.get("every", 3) == case.get("phase", 0)]
+        for k in ks:
+            for sname in ("SIGTERM", "SIGINT"):
+                _restore(db, saved)
+                for lf in _lock_files(S):                   # a lock left by the previous kill is the previous run's finding
+                    os.remove(os.path.join(S, lf))
+                    try:
+                        os.rmdir(os.path.dirname(os.path.join(S, lf)))
+                    except OSError:
+                        pass
+                r = common.in_child(_child_signal, S, ud, case["cmd"], k, getattr(_signal, sname))
+                outcome = "completed" if r[0] == "ok" else "died" if r[0] == "died" else str(r[0])
+                out["runs"].append({"k": k, "signal": sname, "outcome": outcome, "err": r[1].get("err") if r[0] == "ok" else None,
+                                    "locks": _lock_files(S),
+                                    "reader": (lambda q: q[1] if q[0] == "ok" else "EXC:child")(common.in_child(_child_read_locked, S, ud))})
+        return out
+    finally:
+        common.rmtree(R)
+
+
+def check_signal_case(ctx, case, obs):
+    inp = {"history": case["history"], "cmd": case["cmd"], "signal_family": True}
+    if "bad" in obs:
+        raise common.InfraError("signal family: %s" % obs["bad"])
+    if obs["locks_after_plain_run"]:
+        raise common.InfraError("signal family: the untouched run left lock files: %s" % obs["locks_after_plain_run"])
+    for r in obs["runs"]:
+        ctx.evaluations += 1
+        ctx.validated += 1
+        ctx.hist("signal-kill=%s/%s" % (r["signal"], r["outcome"]))
+        i2 = {**inp, "k": r["k"], "signal": r["signal"]}
+        if r["locks"]:
+            ctx.fail("no_lock_left_behind", i2, r, None,
+                     note="after %s at effect %d (%s) lock files stay in the stack: %s" % (r["signal"], r["k"], r["outcome"], r["locks"]))
+        if not isinstance(r["reader"], list):
+            ctx.fail("locked_reader_succeeds", i2, r, None,
+                     note="a later read-only command with locking on: %r" % (r["reader"],))
+    ctx.case(key=inp, nontrivial=bool(obs["runs"]), validated=True, sample=None)
+
+
+def signal_cases():
+    """The signal-kill families: corpus entries marked "signal_family"."""
+    out = []
+    if os.path.isdir(CORPUS):
+        for f in sorted(os.listdir(CORPUS)):
+            if f.endswith(".json"):
+                with open(os.path.join(CORPUS, f)) as fh:
+                    c = json.load(fh)
+                if c.get("signal_family"):
+                    out.append({"history": c["history"], "cmd": c["cmd"], "every": c.get("every", 3), "_corpus": f})
     return out
 
 
@@ -838,6 +983,8 @@ def corpus_cases():
             if f.endswith(".json"):
                 with open(os.path.join(CORPUS, f)) as fh:
                     c = json.load(fh)
+                if c.get("signal_family"):
+                    continue                      # run by the signal family (signal_cases)
                 out.append({"history": c["history"], "cmd": c["cmd"], "_corpus": f})
     return out
 
@@ -888,6 +1035,9 @@ def _floors(ctx):
                                                                                ctx.histogram.get("cache-save=Linux", 0)))
     if ctx.evaluations and ctx.distinct_nontrivial < 16:
         raise common.InfraError("degenerate distribution: %d commands with effects" % ctx.distinct_nontrivial)
+    if sum(v for k, v in ctx.histogram.items() if k.startswith("signal-kill=")) < 10:
+        raise common.InfraError("degenerate distribution: only %d signal kills with locking on"
+                                % sum(v for k, v in ctx.histogram.items() if k.startswith("signal-kill=")))
     for k in ("cmd=declaretab", "cmd=undeclare-noversion"):
         if ctx.distinct_nontrivial >= 40 and ctx.histogram.get(k, 0) + ctx.histogram.get(k + "+tag", 0) < 2:
             raise common.InfraError("degenerate distribution: %d cases of class %s" % (ctx.histogram.get(k, 0), k))
@@ -902,6 +1052,13 @@ def run(ctx):
     ctx.hist("corpus", len(cc))
     if cc:
         evaluate(ctx, cc)
+    # the family of signal kills with locking on (declare with a table stream installs its own signal handler)
+    for sc in signal_cases():
+        sc = dict(sc, phase=ctx.rng.randrange(sc.get("every", 3)))
+        r = common.in_child(run_signal_case, sc)
+        if r[0] != "ok":
+            raise common.InfraError("signal family did not return: %s" % (r[:3],))
+        check_signal_case(ctx, sc, r[1])
     big = ctx.tier == "thorough" or ctx.escalated
     # (2) the ordinary quick portion, first and completely
     done = 0
@@ -915,31 +1072,50 @@ def run(ctx):
     # (3) every crash point of every command of flavor 0 on pa from every state of the single-product universe
     # (the states come in flavor-symmetric pairs, so the commands of flavor 1 are covered up to renaming)
     cmds = [c for c in all_commands() if c["p"] == 0 and c["f"] == 0]
-    reserve = 0.25 * max(0.0, ctx.deadline - time.time())      # keep some of the budget for more random histories
+    # an escalated quick run stops starting new batches a minute before the deadline (a batch takes 20-60 s)
+    stop = ctx.deadline - (0 if ctx.tier == "thorough" else 90)
+    reserve = (0.25 if ctx.tier == "thorough" else 0.5) * max(0.0, stop - time.time())   # for more random histories
     batch, nst, complete = [], 0, True
     for hist in enum_states():
-        if time.time() > ctx.deadline - reserve:
+        if time.time() > stop - reserve:
             complete = False
             ctx.note("exhaustive enumeration stopped by the time budget after %d of 324 states" % nst)
             break
         batch += [{"history": hist, "cmd": c} for c in cmds]
         nst += 1
-        if nst % 12 == 0:
-            evaluate(ctx, batch)
+        # an escalated quick run must end within a few minutes: small batches there (the deadline is looked at between
+        # batches, and one batch of all crash points of ~17 commands per state is the unit), crash points sampled
+        if nst % (12 if ctx.tier == "thorough" else 1) == 0:
+            evaluate(ctx, batch, sample=(ctx.tier == "quick"))
             batch = []
-    if batch:
-        evaluate(ctx, batch)
+    if batch and time.time() < stop:
+        evaluate(ctx, batch, sample=(ctx.tier == "quick"))
     ctx.hist("enumerated-states", nst)
     if complete:
         ctx.note("exhaustive: all 324 states of the single-product universe x %d commands x every crash point" % len(cmds))
-    while done < 120 and not ctx.out_of_time():
-        evaluate(ctx, gen_cases(ctx.rng, 6, 24))
-        done += 6
+    while done < 120 and time.time() < stop:
+        if ctx.tier == "thorough":
+            evaluate(ctx, gen_cases(ctx.rng, 6, 24))
+            done += 6
+        else:
+            evaluate(ctx, gen_cases(ctx.rng, 1, 6), sample=True)
+            done += 1
     _floors(ctx)
 
 
 def replay(ctx, rp):
     common.import_eups()          # before any scratch stack puts EUPS_PATH into the environment
+    if rp["input"].get("signal_family"):
+        sc = {"history": rp["input"]["history"], "cmd": rp["input"]["cmd"], "every": 1, "phase": 0}
+        r = common.in_child(run_signal_case, sc)
+        before = len(ctx.failures)
+        if r[0] == "ok":
+            check_signal_case(ctx, sc, r[1])
+        fl = [f for f in ctx.failures[before:] if f["input"].get("k") == rp["input"].get("k")
+              and f["input"].get("signal") == rp["input"].get("signal")]
+        first = (fl or [{}])[0]
+        return {"input": rp["input"], "impl_output": first.get("impl_output"), "model_output": None, "agree": True,
+                "disagreements": [], "fails": [{"clause": f["clause"], "class": f["finding_class"], "note": f["note"]} for f in fl]}
     c = {"history": rp["input"]["history"], "cmd": rp["input"]["cmd"]}
     before = (len(ctx.failures), len(ctx.disagreements))
     evaluate(ctx, [c], workers=1)
